@@ -783,7 +783,14 @@ func main() {
 
 		must(json.Unmarshal(b, &c))
 
-		if c.Case != nil {
+		if c.Case != nil && c.Case.Level == "cred" {
+			var cc struct {
+				Case *CredCase `json:"case"`
+			}
+
+			must(json.Unmarshal(b, &cc))
+			runCred("replay", cc.Case, tr)
+		} else if c.Case != nil {
 			runCase("replay", c.Case, tr)
 		}
 
@@ -868,6 +875,17 @@ func main() {
 		c.Attacks = append([]Attack{{Kind: "honest"}}, structuralAlters(c)...)
 		c.Attacks = append(c.Attacks, alterAttacks(c, r, 24, false)...)
 		runCase("alter", c, tr)
+	}
+
+	// 6. credential level: generated credentials x reveal frames through GenerateBBSSelectiveDisclosure + ParseCredential
+	nCred := 40
+	if thorough {
+		nCred = 600
+	}
+
+	for i := 0; i < nCred; i++ {
+		cnt++
+		runCred("credential", randomCred(rng.Fork(cnt)), tr)
 	}
 
 	// 5. every position of a proof (direct oracle only)
